@@ -46,7 +46,9 @@ the three switches enumerate the same 16 kinds; `Auth.authSpec` renders to the g
 `GetAuthorizedSignersFor`; the bodies of `GetAuthorizedSignersForValidator`, of the multisig
 `VerifyBytes` / `Address`, of `VerifyRLPBytes`, the edit-stake output guard, the `AccountSub` targets
 of every handler, the fee payer, `PopulateSpecialMessageFields` and the fields `GetSignBytes` copies
-are pinned to the text the model transcribes.
+are pinned to the text the model transcribes; `batch_verifier_verifies_every_lane_member` pins the
+control flow of `BatchVerifier.verifyAll` (no early return; every key-type list of a lane is verified),
+on which the model's having no verification-path dimension rests.
 
 Not proved here (measured by the correspondence run instead, see `checks/C05.py`): that the hand
 model of the handlers and of the order of checks equals the Go code; anything about the primitives.
